@@ -168,6 +168,25 @@ _extra6 = {
     "C17": " Round 6: whole-value injections at one-of positions, numbers beyond int64 under any, the path of a number that does not fit its Go field.",
     "C18": " Round 6: variadic handlers called with every wrong count; dynamic functions whose type handler refuses.",
 }
+_extra7 = {
+    "C01": " Round 7: a directed round trip of an inlined one-of whose keys are aliases of one struct-mapped member; narrow pointer fields.",
+    "C03": " Round 7: bare defaults with white space at either end.",
+    "C04": " Round 7: list properties held in fixed-size array fields; chains of objects with two defaulted references each (build, describe and load must return).",
+    "C05": " Round 7: run IDs of white space only; an integer-keyed one-of in the fixture's step input; panic values and undeclared output IDs that are not valid UTF-8.",
+    "C06": " Round 7: a call issued while Close is called on an idle client (the plugin modelled as a process whose exit ends its output).",
+    "C07": " Round 7: step / run / signal IDs of 1-2 kB of non-ASCII text at four byte alignments; panic values and output IDs that are not valid UTF-8.",
+    "C08": " Round 7: a plugin that talks on after a hello the client refused, with three calls at once; a queued signal in a held signal channel.",
+    "C09": " Round 7: patterns with white space at either end; property IDs that are not identifier-shaped.",
+    "C10": " Round 7: step displays with and without name; loading descriptions of chains of defaulted references must return.",
+    "C12": " Round 7: one property schema shared by two struct-mapped objects with fields of different integer types.",
+    "C13": " Round 7: malformed unit strings in the package-level trials.",
+    "C16": " Round 7: counts padded with leading zeros to 20-70 digits (a count is a decimal numeral).",
+    "C17": " Round 7: undeclared keys that are not strings; injections below references into another namespace.",
+    "C18": " Round 7: (any, error) handlers for every second parameter list; handlers returning the zero value of their result type (the type survives).",
+    "C19": " Round 7: schemas of tens of kilobytes of generated source; references to objects named like type IDs.",
+}
+for _id, _txt in _extra7.items():
+    _extra[_id] = _extra.get(_id, "") + _txt
 for _id, _txt in _extra6.items():
     _extra[_id] = _extra.get(_id, "") + _txt
 for _id, _txt in _extra.items():
